@@ -12,6 +12,7 @@ from typing import (
     Any,
     Awaitable,
     ContextManager,
+    Dict,
     Iterator,
     List,
     Optional,
@@ -36,6 +37,16 @@ else:
         """Placeholder used in type hints to mean "anything you can pass to
         :func:`extract`."
         """
+
+
+class _ReprIs:
+    """An object whose repr() is the given text."""
+
+    def __init__(self, text: str):
+        self.text = text
+
+    def __repr__(self) -> str:
+        return self.text
 
 
 @dataclass
@@ -327,10 +338,11 @@ class Frame(Formattable):
         passing ``capture_locals=True`` to
         :meth:`traceback.StackSummary.extract`.
         """
+        save_locals: Optional[Dict[str, object]]
         if capture_locals:
-            save_locals = {
-                name: repr(value) for name, value in self.pyframe.f_locals.items()
-            }
+            # FrameSummary takes the repr() of each value itself (and copes
+            # with a repr() that raises), so don't pre-format them here
+            save_locals = dict(self.pyframe.f_locals)
         else:
             save_locals = None
         return traceback.FrameSummary(
@@ -429,8 +441,14 @@ class Context(Formattable):
     ) -> Iterator[traceback.FrameSummary]:
         if self.hide and not show_hidden_frames:
             return
+        save_locals: Optional[Dict[str, object]]
         if capture_locals:
-            save_locals = {"<context manager>": self.description or repr(self.obj)}
+            # FrameSummary applies repr() to the values we give it
+            save_locals = {
+                "<context manager>": (
+                    _ReprIs(self.description) if self.description else self.obj
+                )
+            }
         else:
             save_locals = None
         info = self._name_and_type()
